@@ -714,10 +714,138 @@ def fam_binalign(rng):
     return thunk
 
 
+# ---------------------------------------------------------------------------------------------
+# plain-Python indexing  Unary(GetsliceOp(index), Tensor)  (eager_getslice_tensor and its lazy siblings)
+# ---------------------------------------------------------------------------------------------
+
+def _slice_pool(n):
+    """every kind of basic-index component on an event dim of size n: full, reversals (implicit and with explicit
+    bounds: the SAME extent, other values order), strides, partial / negative-step partial slices, ints."""
+    S = slice(None)
+    pool = [S, slice(None, None, -1), slice(n - 1, None, -1), slice(-1, -n - 1, -1), slice(0, n, 1),
+            slice(None, None, 2), slice(None, None, -2), slice(1, None), slice(None, -1), slice(n - 2, None, -1),
+            slice(None, 0, -1), slice(n, None, -1), 0, n - 1, -1]
+    out = []
+    for c in pool:
+        if c not in out:
+            out.append(c)
+    return out
+
+
+def _getslice_grid():
+    """ENUMERATED grid (anchors): tensors with 0 / 1 / 2 named inputs and event shapes (n,), (n, n), (n, n, n)
+    [square: a wrong axis is silent], n = 3; every index tuple over the component pool for rank 1 and 2
+    (shape-preserving-but-permuting ones included: x[::-1], x[:, ::-1], x[::-1, ::-1], explicit-bound reversals),
+    the same with a leading / trailing / middle Ellipsis and with None inserted, and for rank 3 every placement of
+    reversals among full slices."""
+    import itertools as _it
+    n = 3
+    pool = _slice_pool(n)
+    S, R_ = slice(None), slice(None, None, -1)
+    grid = []
+    for nb in (0, 1, 2):
+        for c in pool:                                              # rank 1: every component
+            grid.append((nb, (n,), (c,)))
+        for c in pool:                                              # rank 2: shorter index than rank
+            grid.append((nb, (n, n), (c,)))
+        for a, b in _it.product(pool[:11], repeat=2):               # rank 2: all pairs of slices
+            if nb == 1 or a in (S, R_) or b in (S, R_) or pool.index(a) % 3 == pool.index(b) % 3:
+                grid.append((nb, (n, n), (a, b)))
+        for c in pool[:11] + [0]:                                   # Ellipsis / None placements
+            grid.append((nb, (n, n), (Ellipsis, c)))
+            grid.append((nb, (n, n), (c, Ellipsis)))
+            grid.append((nb, (n, n), (None, c)))
+            grid.append((nb, (n, n), (c, None)))
+            grid.append((nb, (n, n, n), (S, Ellipsis, c)))
+            grid.append((nb, (n, n, n), (c, Ellipsis, S)))
+        grid.append((nb, (n, n), (Ellipsis,)))
+        grid.append((nb, (n, n), ()))
+        for combo in _it.product((S, R_, slice(n - 1, None, -1)), repeat=3):   # rank 3: placements of reversals
+            grid.append((nb, (n, n, n), combo))
+        for shp in [(1,), (1, n), (n, 1), (1, 1), (2, n), (n, 2), (4,)]:        # extents 1 (reversal = identity), non-square
+            for idx in [(R_,), (Ellipsis, R_), (R_, R_)[: len(shp)], (S, R_)[: len(shp)]]:
+                grid.append((nb, shp, idx))
+    return grid
+
+
+GETSLICE_GRID = _getslice_grid()
+
+
+def _distinct_tensor(rng, nb, shape):
+    """integer-valued data, ALL entries distinct (any permutation / wrong selection of entries changes the value)"""
+    names = ["i", "j"][:nb]
+    ins = OrderedDict((nm, Bint[2 if nm == "i" else 3]) for nm in names)
+    full = tuple(d.dtype for d in ins.values()) + tuple(shape)
+    cnt = int(np.prod(full)) if full else 1
+    vals = list(range(-(cnt // 2), cnt - cnt // 2))
+    rng.shuffle(vals)
+    return Tensor(np.array(vals, dtype=np.float64).reshape(full), ins)
+
+
+def fam_getslice(rng):
+    """Unary(GetsliceOp(index), x): plain-Python indexing x[index] of a Tensor with 0-2 named inputs by every kind of
+    basic index (ints, None, Ellipsis, full / partial / strided / NEGATIVE-step slices, incl. those that keep the
+    whole extent of every dim and only permute the entries).  Subseeds < len(GETSLICE_GRID) enumerate the grid;
+    beyond it random indices on random shapes, chained (x[a:][::-1], x[::-1][::-1], x[::-1][k]), lazily built on a
+    Variable / lazy operand and bound afterwards, and consumed by a reduction or a binary op."""
+    def rand_index(shape):
+        comps = []
+        for n in shape:
+            comps.append(rng.choice(_slice_pool(n) + [slice(None), slice(None, None, -1)] * 3))
+        k = rng.randrange(5)
+        if k == 0 and len(comps) > 1:
+            comps = comps[: rng.randrange(1, len(comps))]                       # shorter than the rank
+        elif k == 1:
+            cut = rng.randrange(len(comps) + 1)
+            keep = rng.randrange(cut, len(comps) + 1)
+            comps = comps[:cut] + [Ellipsis] + comps[keep:]                     # Ellipsis swallows cut..keep
+        elif k == 2:
+            comps.insert(rng.randrange(len(comps) + 1), None)
+        return tuple(comps)
+
+    def thunk():
+        a = rng.anchor
+        if a is not None and a < len(GETSLICE_GRID):
+            nb, shape, idx = GETSLICE_GRID[a]
+            return _distinct_tensor(rng, nb, shape)[idx]
+        nb = rng.choice([0, 1, 1, 2])
+        r = rng.choice([1, 2, 2, 3])
+        n = rng.choice([2, 3, 4])
+        shape = tuple(n if rng.random() < 0.7 else rng.choice([1, 2, 3]) for _ in range(r))
+        x = _distinct_tensor(rng, nb, shape)
+        idx = rand_index(shape)
+        k = rng.randrange(7)
+        if k == 0:
+            return x[idx]
+        if k == 1:                                                              # chained: slice of a slice
+            y = x[idx]
+            return y[rand_index(y.output.shape)] if y.output.shape else y
+        if k == 2:                                                              # an already cut tensor, then reversed
+            cut = x[(slice(1, None),)] if shape[0] > 1 else x
+            return cut[(Ellipsis, slice(None, None, -1))] if rng.random() < 0.5 else cut[(slice(None, None, -1),)]
+        if k == 3:                                                              # lazily built, then bound
+            v = Variable("v", Reals[shape])
+            return v[idx](v=x)
+        if k == 4:                                                              # lazy operand (free real input) bound later
+            w = Variable("w", Real)
+            return (x * w)[idx](w=Number(2.0))
+        if k == 5:                                                              # consumed: position-weighted sum
+            y = x[idx]
+            if not y.output.shape:
+                return y
+            wts = Tensor(np.arange(1.0, 1.0 + int(np.prod(y.output.shape))).reshape(y.output.shape))
+            return (y * wts).sum()
+        y = x[idx]                                                              # double reversal / against the original
+        back = y[(slice(None, None, -1),)] if y.output.shape else y
+        return back - x if back.output == x.output else back
+    return thunk
+
+
 FAMILIES = OrderedDict([
     ("binalign", fam_binalign),
     ("function", fam_function),
     ("getitem", fam_getitem),
+    ("getslice", fam_getslice),
     ("tensordot", fam_tensordot),
     ("subschain", fam_subschain),
     ("integrate", fam_integrate), ("scatter", fam_scatter), ("misc", fam_misc),
